@@ -14,12 +14,12 @@ Definition set_iteration_sites : list (string * string * nat * string * iter_kin
    ("sidemantic/sql/generator.py", "extract_from_measure_ref", 806, "deps", Sorted);
    ("sidemantic/sql/generator.py", "extract_from_metric", 825, "deps", Sorted);
    ("sidemantic/sql/generator.py", "extract_from_metric", 841, "deps", Sorted);
-   ("sidemantic/sql/generator.py", "collect_measures_from_metric", 1106, "measure.get_dependencies(self.graph, ref_model_name)", Sorted);
-   ("sidemantic/sql/generator.py", "collect_measures_from_metric", 1129, "measure.get_dependencies(self.graph, model_name)", Sorted);
-   ("sidemantic/sql/generator.py", "collect_measures_from_metric", 1140, "metric.get_dependencies(self.graph, model_name)", Sorted);
-   ("sidemantic/sql/generator.py", "_build_model_cte", 1151, "all_metric_columns", Sorted);
-   ("sidemantic/sql/generator.py", "_build_model_cte", 1168, "all_metric_columns", Irrelevant);
-   ("sidemantic/sql/generator.py", "_build_model_cte", 1174, "measures_needed", Sorted);
-   ("sidemantic/sql/generator.py", "_build_metric_sql", 2177, "dependencies", Sorted);
-   ("sidemantic/sql/generator.py", "collect_leaf_base_metrics", 2546, "dependencies", Sorted);
-   ("sidemantic/sql/generator.py", "build_time_comparison_base_expression", 2690, "metric_obj.get_dependencies(self.graph, resolved_context)", Sorted)].
+   ("sidemantic/sql/generator.py", "collect_measures_from_metric", 1107, "measure.get_dependencies(self.graph, ref_model_name)", Sorted);
+   ("sidemantic/sql/generator.py", "collect_measures_from_metric", 1130, "measure.get_dependencies(self.graph, model_name)", Sorted);
+   ("sidemantic/sql/generator.py", "collect_measures_from_metric", 1141, "metric.get_dependencies(self.graph, model_name)", Sorted);
+   ("sidemantic/sql/generator.py", "_build_model_cte", 1152, "all_metric_columns", Sorted);
+   ("sidemantic/sql/generator.py", "_build_model_cte", 1169, "all_metric_columns", Irrelevant);
+   ("sidemantic/sql/generator.py", "_build_model_cte", 1175, "measures_needed", Sorted);
+   ("sidemantic/sql/generator.py", "_build_metric_sql", 2178, "dependencies", Sorted);
+   ("sidemantic/sql/generator.py", "collect_leaf_base_metrics", 2547, "dependencies", Sorted);
+   ("sidemantic/sql/generator.py", "build_time_comparison_base_expression", 2691, "metric_obj.get_dependencies(self.graph, resolved_context)", Sorted)].
